@@ -1248,7 +1248,6 @@ static size_t get_span_text(TickitRenderBuffer *rb, RBCell *span, int offset, in
           if(len < bytes)
             return -1;
           strncpy(buffer, text + start.bytes, bytes);
-          buffer[bytes] = 0;
         }
         break;
       }
